@@ -18,6 +18,7 @@ func init() {
 			{ID: "C15.R2", Floor: 3, Doc: "next-page query is a copy of the query made now, with a copy of this response's paging state", Run: c15r2},
 			{ID: "C15.R3", Floor: 3, Doc: "nextIter.next written only inside once.Do; fetchAsync spawns fetch inside oncea.Do", Run: c15r3},
 			{ID: "C15.R4", Floor: 8, Doc: "consumers funnel through Scan; page switch re-enters the same logic; position advanced once per delivered row", Run: c15r4},
+			{ID: "C15.R5", Floor: 1, Doc: "a consumer that drains the iterator with Scan reports success only after finding iter.err nil once the loop has ended", Run: c15r5},
 		},
 	})
 }
@@ -486,4 +487,62 @@ func c15r4(p *Program, r *Report) {
 		}
 	}
 	_ = types.Typ
+}
+
+// c15r5: Scan returns false both at the end of the result and when a page fetch or a decode failed; the failure is
+// left in iter.err. A helper that loops `for iter.Scan(...)` and then returns a nil error must have looked at
+// iter.err after the loop (directly, through Close or checkErrAndNotFound): otherwise a failed follow-up page yields
+// a silently truncated result.
+func c15r5(p *Program, r *Report) {
+	n := 0
+	p.forEachFunc(false, func(fi *FuncInfo) {
+		if fi.Pkg != p.Root || fi.Decl.Recv == nil || fi.Decl.Body == nil {
+			return
+		}
+		info := fi.Pkg.TypesInfo
+		if rt := info.TypeOf(fi.Decl.Recv.List[0].Type); rt == nil || typeNameOf(rt) != "Iter" {
+			return
+		}
+		if len(fi.Decl.Recv.List[0].Names) != 1 {
+			return
+		}
+		recv := fi.Decl.Recv.List[0].Names[0].Name
+		var loop *ast.ForStmt
+		ast.Inspect(fi.Decl.Body, func(x ast.Node) bool {
+			if f, ok := x.(*ast.ForStmt); ok && f.Cond != nil && loop == nil {
+				if c, isC := ast.Unparen(f.Cond).(*ast.CallExpr); isC && isCallTo(info, c, "(*Iter).Scan") {
+					loop = f
+				}
+			}
+			return true
+		})
+		if loop == nil {
+			return
+		}
+		// the function reports errors at all?
+		sig := fi.Obj.Type().(*types.Signature)
+		if sig.Results().Len() == 0 || !isErrorType(sig.Results().At(sig.Results().Len()-1).Type()) {
+			return
+		}
+		g := p.GraphOf(fi)
+		facts := g.GuardFacts()
+		for _, e := range g.Exits() {
+			rs, ok := e.Node.(*ast.ReturnStmt)
+			if !ok || len(rs.Results) == 0 || rs.Pos() < loop.End() {
+				continue
+			}
+			last := rs.Results[len(rs.Results)-1]
+			if !isNil(info, last) {
+				continue
+			}
+			n++
+			f, _ := facts.Before(rs)
+			v, known := f.KnownStr(recv + ".err == nil")
+			r.Check(known && v, rs, fi.Name+" reports success only after iter.err was found nil behind the Scan loop", recv+".err == nil known at the return",
+				"a nil error is returned after the Scan loop without "+recv+".err having been examined there: when fetching or decoding a following page fails, the rows read so far are returned as if they were the complete result")
+		}
+	})
+	if n == 0 {
+		r.Unresolved("no Iter method that drains the iterator with a Scan loop and returns an error was found")
+	}
 }
